@@ -495,7 +495,12 @@ def support_thread_error_kinds(P, f, kind, bb):
     R = Roles(P)
     leaf, node = R.build_closures()
     allowed = {"WorkError", "Canceled", "SenderError", "ReceiverError"}
-    for g in (leaf, node, R.drain_fn()):
+    # every BuildError a thread can build, in its closure or in anything it calls (a helper, a
+    # `From` impl used to convert a WorkError, ..)
+    for fid in sorted(P.reachable_fns([leaf.id, node.id]) | {R.drain_fn().id}):
+        g = P.fns.get(fid)
+        if g is None or g.body.get("in_test"):
+            continue
         for (b2, i2, rv, pl) in g.constructs("build::BuildError"):
             if rv["kind"]["variant"] not in allowed:
                 return False
